@@ -2,6 +2,7 @@ import SJ.Props.C04
 import SJ.Props.C04Ap
 import SJ.Props.C04Rv
 import SJ.Props.C04Short
+import SJ.Props.C04ReparseShort
 #print axioms SJ.Props.C04.c04_written_text
 #print axioms SJ.Props.C04.c04_reads_back
 #print axioms SJ.Props.C04.c04_value
@@ -36,3 +37,4 @@ import SJ.Props.C04Short
 #print axioms SJ.Props.C04Short.c04_default_sci15_fails
 #print axioms SJ.Props.C04Short.c04_short_is_exact
 #print axioms SJ.Props.C04Short.c04_default_exact_floats
+#print axioms SJ.Props.C04ReparseShort.c04_reparse_default_short
